@@ -8,6 +8,7 @@ from pyvc import Engine, SBool, SInt, SStr
 def mk_engine(chk):
     e = Engine(chk.repo)
     e.max_unroll = 8
+    e.feas_timeout_ms = 300
     e.loop_specs = {}
     return e
 
